@@ -33,6 +33,18 @@ Kinds of USE beyond "one value, stored once, read once" that a case may contain 
                 integers equal modulo 2^32 / 2^64 or equal at another width, -1 vs all-ones, texts equal after case folding.
                 Every member is stored, peeked and loaded in the order A B A, so that whichever of the two the process met
                 first, the other one shows the confusion (grid-coincidences).
+  temporaries   the value handed to a store call is a temporary: it is dead before the next value is made, and the next one - same
+                type, same size, other content - is made on the dead one's address (CPython hands a freed block to the next
+                request of that size; when the first attempt lands elsewhere the misses are held and more are made; class
+                runtime:address-of-dead-value-reused counts the hits, ~90 %).  What a memo keyed on id(value) plus a cheap
+                fingerprint confuses: equally long values that differ in ONE byte / bit (in the first cell, at the cut, in a
+                continuation cell, near the end) or only between a common head and tail of 16 / 64 bytes; the first content
+                comes back at the end of the series.  One ordinary round trip per value (own builder, cell, slice - they die
+                too), the value either held by the caller through its round or referenced by the call's argument alone.
+                Snake byte strings / texts of 128..70 000 bytes at 4 fill levels of the first cell, bytes / bytearray /
+                memoryview, strings, 63..256-bit integers (uint, int, var ints, coins), bit strings in every form, Address /
+                ExternalAddress objects, address texts, referenced cells (grid-temporaries; a failure in a later round of
+                a series whose first round passed is reported as after-dead-value/<clause>).
 
 Attribution / search behind a failure: when a store raises or writes other bits, the Fail is recorded and the builder
 is replaced by one holding the reference bits, so that the following stores and the loads are still examined and a
@@ -69,7 +81,9 @@ RULE = ('case = sequence of typed store operations (uint w1..256, int w1..257, v
         'min,min+1,-1,0,1,max-1,max and top-bit-set; grids enumerate every width x boundary value, every var-int byte '
         'length x boundary value for every length-field width 1..5, every external-address length, every workchain, every '
         'anycast depth, every snake length, every bit-sequence form x length x alignment, every pattern of 4 optional refs/dicts x position of a print, '
-        'designed coincidences stored A B A (case-folding / equal-crc / equal-prefix / equal-suffix address texts, hash twins, anycast twins, spellings of one address, ints equal mod 2^32/2^64). non-trivial = >=3 operations of >=2 kinds; distinct = distinct case')
+        'designed coincidences stored A B A (case-folding / equal-crc / equal-prefix / equal-suffix address texts, hash twins, anycast twins, spellings of one address, ints equal mod 2^32/2^64), '
+        'series of 3..7 equally long values of one kind (snake 128..70000 bytes, bytes, strings, big ints, bit strings, addresses, cells) differing in one byte / bit or between a common head and tail, '
+        'one round trip each, every value dead before the next is made on its address (id() reuse; non-trivial there = >=2 distinct values of one kind). non-trivial = >=3 operations of >=2 kinds; distinct = distinct case')
 ASSUMPTIONS = ['harness/ref/refbits.py (TL-B writer on str, self-tested on hand-computed vectors at import)',
                'Builder.store_bits(str)/store_ref/end_cell, Cell.bits.to01()/refs, Cell.begin_parse, '
                'Slice.remaining_bits/remaining_refs are the trusted observation base',
@@ -313,9 +327,11 @@ def _slice_cls():
     return Slice
 
 
-def _store(b, op, aux):
+def _store(b, op, aux, fresh=None):
     from pytoniq_core.boc.address import ExternalAddress
     k = op['op']
+    if fresh is not None:           # the value object is supplied by the caller's history (check_temporaries)
+        return _store_obj(b, op, fresh())
     if k == 'uint':
         return b.store_uint(op['v'], op['w'])
     if k == 'int':
@@ -536,7 +552,8 @@ def _refused(b, op, exp_bits, exp_refs):
     return None
 
 
-def _run(ops, fails):
+def _run(ops, fails, fresh=None):
+    """fresh: {op index: zero-argument callable returning the value object handed to that store} (check_temporaries)"""
     from pytoniq_core.boc.builder import Builder
     b = Builder()
     exp_bits = ''            # reference bit string of everything stored so far
@@ -586,7 +603,7 @@ def _run(ops, fails):
         else:
             want_bits = enc_bits(op)
             want_refs = [aux] if n_refs(op) else []
-        ok, e = call(_store, b, op, aux)
+        ok, e = call(_store, b, op, aux, fresh.get(i) if fresh else None)
         bad = None
         if not ok:
             bad = Fail(f'store/{kc}/raises/{exc_sig(e)}', f'op#{i} {_short(op)}: {e!r}')
@@ -1401,6 +1418,282 @@ def enum_twins(tier):
             yield _aba(tag, x, y, salt)
 
 
+# ---- temporaries: values that die before the next one of the same type and size is made
+
+_FRESH_KINDS = ('uint', 'int', 'var_uint', 'var_int', 'coins', 'bits', 'bytes', 'string', 'snake', 'addr_ext', 'addr_std',
+                'addr_std_anycast')
+
+
+def _copy_str(t):
+    return t.encode('utf-8').decode('utf-8')             # a new str object (for more than one character)
+
+
+def _fresh_arg(op):
+    """a NEW object, referenced by nobody else, holding the value of op - what the caller hands to the store call"""
+    from pytoniq_core.boc.address import ExternalAddress
+    k = op['op']
+    if k in ('uint', 'int', 'var_uint', 'var_int', 'coins'):
+        v = op['v']
+        n = v.bit_length() // 8 + 1
+        return int.from_bytes(v.to_bytes(n, 'big', signed=True), 'big', signed=True)
+    if k == 'bits':
+        form = op.get('form', 'str')
+        return _copy_str(op['v']) if form == 'str' else _bits_form(op['v'], form)
+    if k == 'bytes':
+        form = op.get('form', 'bytes')
+        data = bytes.fromhex(op['v'])
+        return data if form == 'bytes' else bytearray(data) if form == 'bytearray' else memoryview(data)
+    if k == 'string':
+        return _copy_str(op['v'])
+    if k == 'snake':
+        how = op.get('as', 'bytes')
+        if how == 'bytes':
+            return bytes.fromhex(op['v'])
+        if how == 'string-ascii':
+            return _ascii(bytes.fromhex(op['v'])).decode('ascii')
+        return bytes.fromhex(op['v'])[1 if how == 'string-prefix' else 0:].decode('utf-8')
+    if k == 'addr_ext':
+        return ExternalAddress(op['v'], op['len'])
+    if k in ('addr_std', 'addr_std_anycast'):
+        via = op.get('via', 'obj')
+        if via == 'str':
+            return f"{op['wc']}:{op['acc']}"
+        if via == 'text':
+            assert _text_means(op['text']) == (op['wc'], bytes.fromhex(op['acc'])), 'generator: text does not denote the address'
+            return _copy_str(op['text'])
+        return _mk_address(op)
+    raise AssertionError(k)
+
+
+def _store_obj(b, op, x):
+    """the store call of op with the value object x made by the caller"""
+    k = op['op']
+    if k == 'uint':
+        return b.store_uint(x, op['w'])
+    if k == 'int':
+        return b.store_int(x, op['w'])
+    if k == 'var_uint':
+        return b.store_var_uint(x, op['bl'])
+    if k == 'var_int':
+        return b.store_var_int(x, op['bl'])
+    if k == 'coins':
+        return b.store_coins(x)
+    if k == 'bits':
+        return b.store_bits(x)
+    if k == 'bytes':
+        return b.store_bytes(x)
+    if k == 'string':
+        return b.store_string(x)
+    if k == 'snake':
+        how = op.get('as', 'bytes')
+        if how == 'bytes':
+            return b.store_snake_bytes(x)
+        return b.store_snake_string(x, True) if how == 'string-prefix' else b.store_snake_string(x)
+    if k in ('addr_ext', 'addr_std', 'addr_std_anycast'):
+        return b.store_address(x)
+    raise AssertionError(k)
+
+
+def _born_at(make, old_id, tries=12):
+    """a fresh value; when an earlier value of the series lived at old_id and the first attempt did not land there, the misses
+    are held (so that the allocator has to hand out another block) and more are made, up to `tries`"""
+    x = make()
+    misses = []
+    while old_id is not None and id(x) != old_id and len(misses) < tries:
+        misses.append(x)
+        x = make()
+    return x
+
+
+def check_temporaries(case):
+    """case = {'pre': n, 'hold': 'through' | 'arg-only', 'series': [op, ...]}: one round trip per op of the series, each in its
+    own builder / cell / slice behind n prefix bits; the ops are of one kind and one size and differ in content.  Every object of
+    a round - the value handed to the store call above all - is dead before the next round's value is made, and that one is made
+    so that it lands on the dead one's address whenever the allocator allows.  'arg-only': the value is referenced by the store
+    call's argument alone (b.store_x(make())), it is dead as soon as the call returns; 'through': the caller holds it until the
+    round is over.  The oracle of every round is the ordinary one (_run): rounds are independent according to the statement."""
+    from harness import core
+    note = getattr(core, 'note', None) or (lambda *a, **k: None)
+    p = case['pre']
+    pre = {'op': 'bits', 'v': _sbits(f'tp{p}', p)}
+    old = None
+    out = []
+    for j, op in enumerate(case['series']):
+        tail = [{'op': 'uint', 'w': 3, 'v': 5}] if op['op'] == 'snake' or p % 2 else \
+            [{'op': 'uint', 'w': 3, 'v': 5}, {'op': 'bit', 'v': 1}]        # 3 or 4 operations: both ways of taking the slice
+        ops = [pre, op] + ([] if op['op'] == 'snake' else tail)
+        fails = []
+        fresh = None
+        box = []
+        if op['op'] in _FRESH_KINDS:
+            box.append(_born_at(lambda: _fresh_arg(op), old))
+            if old is not None:
+                note('runtime:address-of-dead-value-' + ('reused' if id(box[0]) == old else 'not-reused'))
+            old = id(box[0])
+            fresh = {1: box.pop if case['hold'] == 'arg-only' else (lambda: box[0])}
+        _run(ops, fails, fresh)
+        del fresh
+        box.clear()                         # 'through': the value dies last, after everything else of its round
+        for f in fails:
+            if f.signature not in IGNORE:
+                out.append(f if j == 0 else Fail('after-dead-value/' + f.signature,
+                                                 f'round {j} of a series of equally long {op["op"]} values, each dead before the next '
+                                                 f'was made (round 0 passed): {f.detail}'))
+        if out:
+            break
+    known = _known()
+    for f in out:
+        if f.signature not in known:
+            return f
+    return out[0] if out else None
+
+
+def classify_temporaries(case):
+    ops = case['series']
+    op = ops[0]
+    k = op['op']
+    yield 'kind=' + k + (':' + op.get('as', 'bytes') if k == 'snake' else ':' + op['form'] if 'form' in op else
+                         ':' + op['via'] if 'via' in op else '')
+    yield 'hold=' + case['hold']
+    yield 'style=' + case['style']
+    yield 'rounds=' + str(len(ops))
+    if k in ('snake', 'bytes'):
+        n = len(op['v']) // 2
+        yield 'value-bytes=' + ('<=127' if n <= 127 else '128..479' if n < 480 else '480..4095' if n < 4096 else
+                                '4096..65535' if n < 65536 else '>=65536')
+        if k == 'snake':
+            yield 'snake:free-bytes-in-root=' + str((1023 - case['pre']) // 8)
+    if any(canon_op(a) == canon_op(b) for i, a in enumerate(ops) for b in ops[:i]):
+        yield 'series:earlier-content-again'
+
+
+def canon_op(op):
+    return repr(sorted(op.items()))
+
+
+def nontrivial_temporaries(case):
+    ops = case['series']
+    return len(ops) >= 2 and len({op['op'] for op in ops}) == 1 and len({canon_op(op) for op in ops}) >= 2
+
+
+def _flip_byte(data, q, j):
+    return data[:q] + bytes([data[q] ^ (0x11 * j)]) + data[q + 1:]
+
+
+def _flip_bit01(v, q):
+    return v[:q] + ('1' if v[q] == '0' else '0') + v[q + 1:]
+
+
+def _series_bytes(tag, n, style, points, floor=0):
+    """equally long byte strings: 'one-byte' - each differs from the first in ONE byte (at one of `points`), 'middleH' - they
+    share the first H and the last H bytes and differ in between; the first content comes once more at the end"""
+    base = _stream(tag, n)
+    if floor:
+        base = bytes(floor) + base[floor:]
+    if style == 'one-byte':
+        qs = sorted({q for q in points if floor <= q < n})[:5] or [n - 1]
+        out = [base] + [_flip_byte(base, q, j + 1) for j, q in enumerate(qs)]
+    else:
+        h = int(style[6:])
+        if n <= 2 * h + 1:
+            return None
+        out = [base] + [base[:h] + _stream(f'{tag}/m{j}', n - 2 * h) + base[n - h:] for j in (1, 2, 3)]
+    return out + [base]
+
+
+def enum_temporaries(tier):
+    case = lambda pre, hold, style, series: {'pre': pre, 'hold': hold, 'style': style, 'series': series}
+    holds = ('through', 'arg-only')
+    c = 0
+    # (1) snake byte strings / texts longer than the room in the first cell
+    sizes = (1, 127, 128, 300, 480, 1052, 5000, 70000) if tier == 'quick' else (1, 2, 126, 127, 128, 129, 254, 300, 480, 513, 1052, 5000, 66000, 70000, 120000)
+    for pb in (0, 4, 100, 127):
+        avail = 127 - pb
+        for extra in sizes:
+            n = avail + extra if extra < 300 else extra
+            for style in ('one-byte', 'middle16', 'middle64'):
+                for how in ('bytes', 'string-ascii', 'string-prefix'):
+                    c += 1
+                    if n >= 5000 and (c + pb) % 3:             # the long ones: every third combination
+                        continue
+                    floor = 1 if how == 'string-prefix' else 0
+                    pts = (floor, 16, avail - 1, avail, avail + 1, avail + 126, avail + 127, (avail + n) // 2, n - 128, n - 17, n - 1)
+                    pts = [q for q in pts if q >= avail - 1][:5] if c % 2 else [q for q in pts if q < n - 16 and q >= 16 and q >= avail][:5]
+                    vals = _series_bytes(f'tmp-snake{pb}/{extra}', n, style, pts, floor)
+                    if vals is None:
+                        continue
+                    if how != 'bytes':                          # texts: 7-bit bytes
+                        vals = [bytes(floor) + bytes(x & 0x7F for x in v[floor:]) if how == 'string-prefix' else v for v in vals]
+                    ser = [dict({'op': 'snake', 'v': v.hex()}, **({} if how == 'bytes' else {'as': how})) for v in vals]
+                    yield case(8 * pb, holds[c % 2], style, ser)
+    # (2) byte strings and texts that fit the cell
+    for n in (16, 33, 64, 100, 126):
+        for form in BYTES_FORMS:
+            for style in ('one-byte', 'middle16'):
+                c += 1
+                vals = _series_bytes(f'tmp-bytes{n}', n, style, (0, n // 2, n - 1, 16, n - 17))
+                if vals is not None:
+                    yield case((0, 1, 7)[c % 3], holds[c % 2], style, [{'op': 'bytes', 'v': v.hex(), 'form': form} for v in vals])
+        for alphabet in ('ascii', 'multibyte'):
+            c += 1
+            base = _ascii(_stream(f'tmp-str{n}', n)).decode() if alphabet == 'ascii' else ('aé€' * n)[:n // 3 + 1]
+            base = _fit_utf8(base, n)
+            qs = sorted({0, len(base) // 2, len(base) - 1})
+            vals = [base] + [base[:q] + ('Z' if base[q] != 'Z' else 'Y') + base[q + 1:] for q in qs if len(base[q].encode()) == 1] + [base]
+            yield case((0, 1, 7)[c % 3], holds[c % 2], 'one-char', [{'op': 'string', 'v': v} for v in vals])
+    # (3) numbers of one width / one byte length, differing in one bit
+    for w in (63, 64, 65, 128, 200, 256):
+        x = int.from_bytes(_stream(f'tmp-int{w}', 32), 'big') >> (256 - w) | 1 << (w - 1)
+        xs = [x] + [x ^ (1 << q) for q in sorted({0, 31, w // 2, w - 2})] + [x]
+        for kind in ('uint', 'int', 'var_uint', 'var_int', 'coins'):
+            if kind == 'coins' and w > 120:
+                continue
+            c += 1
+            if kind == 'uint':
+                ser = [{'op': 'uint', 'w': w, 'v': v} for v in xs]
+            elif kind == 'int':
+                ser = [{'op': 'int', 'w': w + 1, 'v': (v if j % 2 else -v)} for j, v in enumerate(xs)]
+            elif kind == 'coins':
+                ser = [{'op': 'coins', 'v': v} for v in xs]
+            else:
+                ser = [{'op': kind, 'bl': 6 if w > 240 else 5, 'v': v if kind == 'var_uint' or j % 2 == 0 else -v} for j, v in enumerate(xs)]
+            ser = [o for o in ser if o['op'] not in ('var_uint', 'var_int') or o['bl'] <= 5]
+            if ser:
+                yield case((0, 3, 8)[c % 3], holds[c % 2], 'one-bit', ser)
+    # (4) bit strings in every form
+    for n in (64, 257, 1000):
+        v0 = _sbits(f'tmp-bits{n}', n)
+        vs = [v0] + [_flip_bit01(v0, q) for q in (0, 40, n // 2, n - 1)] + [v0]
+        for form in BITS_FORMS:
+            c += 1
+            yield case((0, 5, 16)[c % 3], holds[c % 2], 'one-bit', [{'op': 'bits', 'v': v, 'form': form} for v in vs])
+    # (5) addresses: Address / ExternalAddress objects and texts (all texts of one spelling are equally long)
+    for k in range(4):
+        acc = _stream(f'tmp-acc{k}', 32)
+        wc = (0, -1, 127, -128)[k]
+        accs = [acc] + [_flip_byte(acc, q, j + 1) for j, q in enumerate((0, 15, 16, 31))] + [acc]
+        for via in ('obj', 'str', 'text'):
+            c += 1
+            ser = [dict({'op': 'addr_std', 'wc': wc, 'acc': a.hex(), 'via': via},
+                        **({'text': refaddr.friendly(wc, a, bool(k & 1), bool(k & 2))} if via == 'text' else {})) for a in accs]
+            yield case((0, 1, 6)[c % 3], holds[c % 2], 'one-byte', ser)
+        c += 1
+        d = (1, 5, 17, 30)[k]
+        pf = int.from_bytes(acc[:4], 'big') >> (32 - d)
+        yield case(k, holds[c % 2], 'anycast', [{'op': 'addr_std_anycast', 'wc': wc, 'acc': a.hex(), 'depth': d, 'pfx': pf ^ (j & 1), 'via': 'obj'}
+                                                for j, a in enumerate(accs[:4])] + [{'op': 'addr_std', 'wc': wc, 'acc': acc.hex(), 'via': 'obj'}])
+        ln = (8, 64, 256, 500)[k]
+        v = int.from_bytes(_stream(f'tmp-ext{k}', 64), 'big') >> (512 - ln) | 1 << (ln - 1)
+        c += 1
+        yield case(k, holds[c % 2], 'one-bit', [{'op': 'addr_ext', 'len': ln, 'v': x, 'via': 'obj'} for x in (v, v ^ 1, v ^ (1 << ln // 2), v ^ 2, v)])
+    # (6) referenced cells of one size (made and dropped by the round itself)
+    for n in (8, 200, 1023):
+        v0 = _sbits(f'tmp-cell{n}', n)
+        for kind in ('maybe_ref', 'dict'):
+            c += 1
+            yield case(c % 8, 'through', 'one-bit', [{'op': kind, 'v': {'b': v, 'r': []}} for v in (v0, _flip_bit01(v0, n // 2), _flip_bit01(v0, n - 1), v0)])
+
+
 SUBCHECKS = [
     Sub('grid-fixed-width', check, enum=enum_fixed, classify=classify, nontrivial=nontrivial, shards=(8, 8), exhaustive=True,
         note='every width 1..256 (uint) / 1..257 (int) x {min,min+1,-2,-1,0,1,max-1,max,top-bit,...} at 8 bit offsets'),
@@ -1418,6 +1711,11 @@ SUBCHECKS = [
     Sub('grid-coincidences', check, enum=enum_twins, classify=classify, nontrivial=nontrivial, shards=(8, 8),
         note='designed pairs stored A B A: case-folding / equal-crc / equal-prefix / equal-suffix address texts, workchain and '
              '__hash__ twins, anycast twins, spellings of one address, external-address twins, ints equal mod 2^32/2^64, texts'),
+    Sub('grid-temporaries', check_temporaries, enum=enum_temporaries, classify=classify_temporaries, nontrivial=nontrivial_temporaries,
+        shards=(8, 8), case_cpu_s=60.0,
+        note='series of equally long values of one kind (snake byte strings / texts up to 70 000 bytes, bytes, strings, big integers, bit '
+             'strings in every form, Address / ExternalAddress objects and address texts, cells) that differ in one byte / one bit / '
+             'the middle only; one round trip each, every value dead before the next is made on its address (class runtime:*)'),
     Sub('sequences-random', check, strategy=strat_sequences, classify=classify, nontrivial=nontrivial,
         n=(8000, 200000), shards=(16, 32)),
 ]
